@@ -3,9 +3,10 @@
    start_torsor_gen / end_torsor_gen and the recovery from recover_gen (both regenerated from
    process/element_solution.go on every run); the summation over bars (Model/Recover.v
    reaction_at, node_reactions) is tied to process/solution.go by correspondence stage F. *)
-From Coq Require Import ZArith QArith Qabs List Bool Arith Permutation.
-From Inkfem Require Import Num.NumOps Gen.GenLoads Gen.GenRecover Spec.Stiffness
-  Model.Types Model.Slice Model.Dof Model.Assemble Model.Recover Proofs.RecoverProofs Proofs.ReactionProofs.
+From Coq Require Import ZArith QArith Qabs List Bool Arith Permutation Lia.
+From Inkfem Require Import Num.NumOps Gen.GenStiffness Gen.GenLoads Gen.GenRecover Spec.Stiffness Spec.Superposition
+  Model.Types Model.Slice Model.Dof Model.Assemble Model.Recover Proofs.RecoverProofs Proofs.ReactionProofs
+  Proofs.FieldProofs Proofs.SystemProofs.
 Import ListNotations.
 Local Open Scope Q_scope.
 
@@ -51,6 +52,60 @@ Theorem C03_reaction_keys : forall (eps : Q) (bars : list (pbar Q)) (u : list Q)
 Proof. exact node_reactions_keys. Qed.
 Print Assumptions C03_reaction_keys.
 
+(* ---- the whole structure, from the system the model hands to the solver (C17) ----
+   Row i of "K u = f", for a number that carries no support and has at least one stiffness term,
+   says that the forces the finite elements exert at that number (slice stiffness, as assembled, x
+   the slice's own displacements) equal the nodal loads assembled there: every unsupported
+   equation is an equilibrium equation. *)
+Theorem C03_rows_are_equilibrium : forall n bars sup u i,
+  Forall (nums_below n) (all_slices bars) -> solves n bars sup u -> (i < n)%nat ->
+  is_supported sup i = false -> row_empty (all_contribs bars) i = false ->
+  fraw_at (k_terms u bars) i == fraw_at (all_fterms bars) i.
+Proof. exact row_is_equilibrium. Qed.
+Print Assumptions C03_rows_are_equilibrium.
+
+(* supported numbers: the solution is exactly zero there *)
+Theorem C03_supported_numbers_do_not_move : forall n bars sup u i,
+  solves n bars sup u -> (i < n)%nat -> is_supported sup i = true -> uget u i == 0.
+Proof. exact solves_supported. Qed.
+Print Assumptions C03_supported_numbers_do_not_move.
+
+(* GLOBAL EQUILIBRIUM.  support_force u bars i is what the supports must provide at number i:
+   element forces minus assembled loads.  For every structure whose finite elements are labelled
+   consistently (every number stands for one component at one position; the lead node of an
+   element sits where the bar's direction puts it), and every u that solves the system: the support
+   forces and ALL assembled nodal loads balance - sum of x components (w_tx), sum of y components
+   (w_ty), and sum of moments about ANY point (px, py) (w_rot).  With C04 (the assembled nodal
+   loads of a bar are statically equivalent to the user's loads on it) this is the property.
+   The proof is the virtual work of a rigid movement: by C20 (rigid_tx / rigid_ty / rigid_rot,
+   here in column form) no finite element resists it. *)
+Theorem C03_support_forces_in_global_equilibrium : forall n sup u bars (lab : nat -> label),
+  Forall (nums_below n) (all_slices bars) ->
+  Forall (fun t => (fst t < n)%nat) (all_fterms bars) ->
+  solves n bars sup u ->
+  (forall i, (i < n)%nat -> row_empty (all_contribs bars) i = true -> fraw_at (all_fterms bars) i == 0) ->
+  Forall (fun sl => no_tiny (s_k sl) /\ labelled lab sl /\ ~ slice_len (s_b sl) (s_na sl) (s_nb sl) == 0 /\
+                    b_c (s_b sl) * b_c (s_b sl) + b_s (s_b sl) * b_s (s_b sl) == 1) (all_slices bars) ->
+  forall w, (w = w_tx lab \/ w = w_ty lab \/ exists px py, w = w_rot lab px py) ->
+  fsum n (fun i => if is_supported sup i then w i * support_force u bars i else 0) + wsum w (all_fterms bars) == 0.
+Proof. exact support_forces_in_global_equilibrium. Qed.
+Print Assumptions C03_support_forces_in_global_equilibrium.
+
+(* no force along a direction the support leaves free: an unsupported number with a row has no
+   support force at all *)
+Theorem C03_no_support_force_at_free_numbers : forall n bars sup u i,
+  Forall (nums_below n) (all_slices bars) -> solves n bars sup u -> (i < n)%nat ->
+  is_supported sup i = false -> row_empty (all_contribs bars) i = false ->
+  support_force u bars i == 0.
+Proof.
+  intros n bars sup u i Hn Hs Hi Hsup Hrow. unfold support_force.
+  rewrite (row_is_equilibrium n bars sup u i Hn Hs Hi Hsup Hrow). ring.
+Qed.
+Print Assumptions C03_no_support_force_at_free_numbers.
+
+(* the chain hypothesis of C03_bar_equilibrium is what the system's rows say at the interior nodes
+   of a bar (statement and proof: Properties/C02.v C02_chain_from_system) *)
+
 (* Non-vacuity: the two-element cantilever of C02 is a chain in equilibrium *)
 Example C03_hypotheses_satisfiable :
   let b := {| b_n1 := 0; b_n2 := 1; b_l1 := rigid; b_l2 := rigid; b_x1 := 0; b_y1 := 0; b_x2 := 2; b_y2 := 0;
@@ -66,4 +121,41 @@ Proof.
   - unfold good_bar; cbn. repeat split; discriminate.
   - cbn [chain_ok]. unfold lumped, node_equilibrium, slice_len, tor_eqQ; cbn.
     repeat split; try discriminate; vm_compute; reflexivity.
+Qed.
+
+(* Non-vacuity of the structure-level theorems: the same cantilever as a sliced, numbered
+   structure.  u solves the assembled system; every hypothesis holds; the support forces are
+   (0, -1, -1) at the clamped numbers 0, 1, 2: they balance the unit load at x = 1. *)
+Definition ex_bar : bar Q := {| b_n1 := 0; b_n2 := 1; b_l1 := rigid; b_l2 := rigid; b_x1 := 0; b_y1 := 0; b_x2 := 2; b_y2 := 0;
+  b_L := 2; b_c := 1; b_s := 0; b_E := 1; b_A := 1; b_I := 1; b_S := 1; b_rho := 0; b_cl := []; b_dl := [] |}.
+Definition ex_nd (t x : Q) (e : tor Q) : pnode Q := {| pn_t := t; pn_x := x; pn_y := 0; pn_ext := e; pn_left := (0, 0, 0); pn_right := (0, 0, 0) |}.
+Definition ex_bars : list (pbar Q) :=
+  [ {| pb_bar := ex_bar; pb_nodes := [ex_nd 0 0 (0, 0, 0); ex_nd (1 # 2) 1 (0, 1, 0); ex_nd 1 2 (0, 0, 0)];
+       pb_dofs := [(0, 1, 2)%nat; (3, 4, 5)%nat; (6, 7, 8)%nat] |} ].
+Definition ex_u : list Q := [0; 0; 0; 0; 1 # 3; 1 # 2; 0; 5 # 6; 1 # 2].
+Definition ex_sup : list nat := [0; 1; 2]%nat.
+Definition ex_lab (i : nat) : label :=
+  {| lb_comp := Nat.modulo i 3; lb_x := match Nat.div i 3 with 0%nat => 0 | 1%nat => 1 | _ => 2 end; lb_y := 0 |}.
+
+Example C03_structure_hypotheses_satisfiable :
+  Forall (nums_below 9) (all_slices ex_bars) /\
+  Forall (fun t => (fst t < 9)%nat) (all_fterms ex_bars) /\
+  solves 9 ex_bars ex_sup ex_u /\
+  (forall i, (i < 9)%nat -> row_empty (all_contribs ex_bars) i = true -> fraw_at (all_fterms ex_bars) i == 0) /\
+  Forall (fun sl => no_tiny (s_k sl) /\ labelled ex_lab sl /\ ~ slice_len (s_b sl) (s_na sl) (s_nb sl) == 0 /\
+                    b_c (s_b sl) * b_c (s_b sl) + b_s (s_b sl) * b_s (s_b sl) == 1) (all_slices ex_bars) /\
+  map (fun i => Qred (support_force ex_u ex_bars i)) [0; 1; 2]%nat = [0; -1; -1].
+Proof.
+  split; [apply nums_below_b_sound; vm_compute; reflexivity|].
+  split; [repeat constructor|].
+  split.
+  { intros i Hi. do 9 (destruct i as [|i]; [vm_compute; reflexivity|]). exfalso; lia. }
+  split.
+  { intros i Hi. do 9 (destruct i as [|i]; [vm_compute; intros; try discriminate; reflexivity|]). exfalso; lia. }
+  split; [| vm_compute; reflexivity].
+  apply Forall_forall. intros sl Hin. vm_compute in Hin.
+  destruct Hin as [<- | [<- | []]];
+    (split; [apply no_tiny_b_sound; vm_compute; reflexivity|]);
+    (split; [unfold labelled, labelled_node; cbn; repeat split; reflexivity|]);
+    (split; [vm_compute; discriminate | vm_compute; reflexivity]).
 Qed.
